@@ -214,27 +214,36 @@ def _deprecated_filter(src: int, include: int, dep: int, via_type: bool) -> bool
     return result(ok, True)
 
 
-def _disabled(src: int, q: int) -> bool:
+def _disabled(src: int, q: int, cfg: int = 0) -> bool:
     """
-    pre: 0 <= src <= 1 and 0 <= q <= 3
+    pre: 0 <= src <= 1 and 0 <= q < 7 and 0 <= cfg <= 1
     post: _
     """
-    SRC, Q = concrete_int(src, 0, 1), concrete_int(q, 0, 3)
+    SRC, Q, C = concrete_int(src, 0, 1), concrete_int(q, 0, 6), concrete_int(cfg, 0, 1)
     with untraced():
         schema = make_schema(SRC, 0, 0)
         field = "c" if SRC == 1 else "s(x: [\"a\"])"
-        query = ("{ __schema { types { name } } plain: %s }", "{ __type(name: \"Query\") { name } plain: %s }", "{ __typename plain: %s }", "{ plain: %s }")[Q] % field
-        root = {"c": 1, "s": "ok", "plain": None}
-        on = process_graphql_query(schema, query, root=root, executor_cls=Executor)
-        off = process_graphql_query(schema, query, root=root, executor_cls=Executor, disable_introspection=True)
+        query = ("{ __schema { types { name } } plain: %s }", "{ __type(name: \"Query\") { name } plain: %s }", "{ __typename plain: %s }", "{ plain: %s }",
+                 "{ plain: %s ... on Query { __typename } }", "{ plain: %s ...F } fragment F on Query { __typename __schema { queryType { name } } }",
+                 "{ plain: %s a { __typename id } }")[Q] % field
+        if Q == 6 and SRC == 1:
+            return result(True, False)          # the code-built schema has no object-typed field
+        root = {"c": 1, "s": "ok", "plain": None, "a": {"id": "1"}}
+        kw = dict(root=root, executor_cls=Executor) if C == 0 else dict(root=root)
+        on = process_graphql_query(schema, query, **kw)
+        off = process_graphql_query(schema, query, disable_introspection=True, **kw)
         d_on, d_off = on.response().get("data"), off.response().get("data")
         ok = d_on is not None and d_off is not None
         if ok:
-            # ordinary fields unaffected; meta fields resolve to nothing when disabled
+            # ordinary fields unaffected; meta fields resolve to nothing when disabled - at any depth, directly or through fragments
             ok = d_on.get("plain") == d_off.get("plain") and d_on.get("plain") is not None
             for meta in ("__schema", "__type", "__typename"):
                 if meta in d_on:
                     ok = ok and d_on[meta] is not None and d_off.get(meta) is None
+            if Q in (4, 5):
+                ok = ok and d_on.get("__typename") == "Query"
+            if Q == 6:
+                ok = ok and d_on["a"] == {"__typename": "A", "id": "1"} and d_off["a"] == {"id": "1"}
     return result(ok, True)
 
 
@@ -267,8 +276,9 @@ CONDITIONS = [
     Cond(name="deprecated_filter", fn=_deprecated_filter, quick=60, thorough=60, bound="includeDeprecated absent / false / true / through a variable (false, true, omitted) on fields and enumValues x deprecation pattern (none, some, EVERY member of an object type, an interface and an enum) "
                "x via __schema.types or __type(name:) for every type, 2 schemas: member lists (name, isDeprecated, deprecationReason) equal the reference, null only for kinds without such members",
          symbolic={"src,include,dep,via_type": "choice"}, witness={"src": 0, "include": 1, "dep": 2, "via_type": False}),
-    Cond(name="disabled", fn=_disabled, quick=60, thorough=60, bound="disable_introspection on/off x 4 queries (__schema, __type, __typename, none) x 2 schemas: meta-fields hidden, ordinary field unaffected",
-         symbolic={"src,q": "choice"}, witness={"src": 0, "q": 0}),
+    Cond(name="disabled", fn=_disabled, quick=60, thorough=60, bound="disable_introspection on/off x 7 queries (__schema, __type, __typename at the root, none, __typename through an inline fragment, meta-fields through a named fragment, "
+               "__typename on a nested object) x 2 schemas x 2 executors: meta-fields hidden at every depth, ordinary fields unaffected",
+         symbolic={"src,q,cfg": "choice"}, witness={"src": 0, "q": 6, "cfg": 0}),
     Cond(
         name="format_default_kernel", fn=_format_default_kernel, quick=100, thorough=600, per_path=30,
         bound="_format_default_value on every String default of <= 2 (thorough 3) symbolic characters: one string token whose value is the default",
